@@ -745,6 +745,7 @@ def fresh_array(name, shape, kind="real", fact=None):
     f = z3.Function(base, *([z3.IntSort()] * n), sort) if n else z3.Const(base, sort)
     arr = SymArray(shape, with_fact((lambda idx: SymNum(f(*[to_z3_int(i) for i in idx]))) if n else (lambda idx: SymNum(f))), kind)
     arr._z3funcs = (f,)
+    arr._name = base
     return arr
 
 
@@ -1684,7 +1685,9 @@ def arange(*args, dtype=None):
         if ln < 0:
             ln = 0
     k = _dtype_kind(dtype) if dtype is not None else "int"
-    return SymArray((ln,), lambda idx: _wrap_idx(idx[0]) + start, k)
+    r = SymArray((ln,), lambda idx: _wrap_idx(idx[0]) + start, k)
+    r._name = f"arange({start},{stop})"
+    return r
 
 
 # ---------------------------------------------------------------------------------------
@@ -2076,3 +2079,35 @@ def gradient(f, *varargs, axis=None, edge_order=None):
 
     res = [along(ax, h) for ax, h in zip(axes, hs)]
     return res[0] if len(axes) == 1 else res
+
+
+def interp(x, xp, fp, left=None, right=None, period=None):
+    """jnp.interp.  Concrete data: numpy.  Symbolic data: the interpolant is an (uninterpreted) FUNCTION
+    of x determined by (xp, fp, left, right) - enough for relational obligations; its piecewise-linear
+    shape is not modelled."""
+    x_, xp_, fp_ = asarray(x), asarray(xp), asarray(fp)
+    if period is not None:
+        raise Unsupported("interp with period")
+
+    def tag(a):
+        return getattr(a, "_name", None) or f"arr{id(a)}"
+
+    def concrete(a):
+        if not a.is_concrete_shape():
+            return None
+        vals = [a.at_index(i) for i in a.concrete_indices()]
+        if any(is_sym(v) for v in vals):
+            return None
+        return _np.array([float(v) for v in vals]).reshape(a.shape)
+
+    cxp, cfp = concrete(xp_), concrete(fp_)
+    name = f"interp[{tag(xp_)};{tag(fp_)};{left};{right}]"
+
+    def f(v):
+        if not is_sym(v) and cxp is not None and cfp is not None:
+            return float(_np.interp(float(v), cxp, cfp, left=left, right=right))
+        return apply_uf(name, v)
+
+    if isinstance(x, SymArray):
+        return x_._map(f, "real")
+    return f(x_.item())
